@@ -20,7 +20,7 @@ from pywbem_mock import FakedWBEMConnection
 
 warnings.simplefilter('ignore')
 
-R = Run('instance-operation histories of length <= 6 (state prefix of <= 5 creates x every op of a 150-300 op '
+R = Run('instance-operation histories of length <= 6 (state prefix of <= 5 creates x every op of a 150-230 op '
         'alphabet; all pairs of core write ops; seeded random histories) over generated schemas (1..3 namespaces, '
         'class tree depth 1..3, 3 key layouts, all CIM types incl. arrays/embedded instance/reference, association '
         'within and across namespaces) vs a reference dict model; valid/invalid/differently-cased/partial '
@@ -872,7 +872,7 @@ def fid(f):
     return ('final-' if f['where'] == 'final' else '') + f['kind'] + '-' + f['symptom']
 
 
-def known_functional(f, hist):
+def known_functional(f):
     """Narrow identification of the defects reproduced on the unchanged tree."""
     k, s = f['kind'], f['symptom']
     if k == 'modify' and s == 'raises-ValueError' and 'pl-absent-null-default' in f['hints'] and \
@@ -908,7 +908,7 @@ def explore(schema, si, hist, idx, sites, modename):
     # classify on fresh connections: functional failure (also without any mutation) or isolation failure
     f0 = run_history(schema, hist, NONE, fresh=True)
     if f0 is not None:
-        record(known_functional(f0, hist) or fid(f0), schema, hist, f0, 'none')
+        record(known_functional(f0) or fid(f0), schema, hist, f0, 'none')
         return
     for s in sorted(sites):
         fs = run_history(schema, hist, frozenset([s]), fresh=True)
